@@ -122,3 +122,16 @@ def regenerate_wblocks(res):
         return False
     common.write_if_changed(os.path.join(common.COQ, "Gen", "WBlocksGen.v"), text)
     return True
+
+
+def regenerate_ggs(res):
+    """T12: digital_rf_get_global_sample -> coq/Gen/GgsGen.v"""
+    import c2gallina
+    import ggs2gallina
+    try:
+        text = ggs2gallina.translate(common.REPO)
+    except c2gallina.Unsupported as e:
+        res.broken.append("translator T12 (ggs2gallina) rejects the current digital_rf_get_global_sample: %s" % e)
+        return False
+    common.write_if_changed(os.path.join(common.COQ, "Gen", "GgsGen.v"), text)
+    return True
